@@ -61,6 +61,7 @@ static const VSpec VM_SPEC[VM_NS] = {
 #define VM_NCFG 4          /* configurations: (A) (B,B1) (B,B2) (C) */
 #include "tier_c/machine_common.hpp"
 struct A : St<1> {}; struct B : St<2> {}; struct B1 : St<3> {}; struct B2 : St<4> {}; struct C : St<5> {};
+#define VM_FOR_STATES(F_) F_(A, 1) F_(B, 2) F_(B1, 3) F_(B2, 4) F_(C, 5)
 #include "tier_c/view.hpp"
 #include "tier_c/steps.hpp"
 #include "tier_c/entries.hpp"
